@@ -686,11 +686,18 @@ SU_vector& SU_vector::operator=(const SU_vector& other){
     if(isinit_d) //can't resize
       throw std::runtime_error("Non-matching dimensions in assignment to SU_vector with external storage");
     //can resize
-    if(isinit)
+    if(isinit){
       deallocate_mem();
+      //The old storage is gone; forget it before allocating, so that this
+      //vector is left empty rather than dangling if the allocation throws
+      isinit=false;
+      components=nullptr;
+      dim=0;
+      size=0;
+    }
+    alloc_aligned(other.dim,other.size,components,ptr_offset);
     dim=other.dim;
     size=other.size;
-    alloc_aligned(dim,size,components,ptr_offset);
     isinit=true;
   }
 
